@@ -1,5 +1,5 @@
 """C10 — renumbering objects preserves the document graph."""
-import json, os, hashlib
+import json, os, hashlib, subprocess, time
 import vlib
 from vlib import Check, tlc, run_bin, workdir, write_ndjson, read_ndjson, log
 
@@ -27,11 +27,12 @@ META = {
             "forests with grandchildren, entries of bookmark_table under no root, ids listed under two parents or twice under "
             "one). Every entry of bookmark_table counts as a bookmark whose target must follow the renaming.",
     "note": "Trusted: TLC, the projection in harness/src/wire.rs, Renumber!Acceptable as the reading of the statement "
-            "(generations are not required to be preserved; references held by unreachable objects need not be renamed). "
+            "(generations are not required to be preserved; references held by objects that neither the trailer nor a bookmark "
+            "reaches need not be renamed). "
             "Exhaustive only within the model bounds (<=4 objects quick, <=5 thorough); beyond that sampled. Not covered: page "
-            "trees with cycles or deeper than two levels (C12/C13), bookmark targets that exist but are unreachable from the trailer "
-            "(only: still an object of the same shape, no reachable object renamed onto it), nesting beyond the parser's limit, "
-            "start + count beyond u32.",
+            "trees with cycles or deeper than two levels (C12/C13), nesting beyond the parser's limit, start + count - 1 beyond "
+            "u32::MAX (unsatisfiable; observed only), an object numbered 0 in the input, encrypt-then-renumber (C05/C10 "
+            "interplay, in neither statement). The build without overflow checks is exercised in the thorough tier only.",
     "design_ref": "DESIGN.md section 4 C10",
 }
 
@@ -39,7 +40,8 @@ MC_ACTIONS = ["Build1", "Build2", "Build3", "BeginS", "PagePairS", "PageFinishS"
               "DenseFinishS"]
 MC_ACTIONS_REPAIRED = [a for a in MC_ACTIONS] + ["DenseFinishRepaired"]   # the code as it is (saturating max_id)
 FORMER_FINDINGS = ["bookmark.chain", "dangling.capture", "dangling.capture.pageorder", "panic.empty0",
-                   "pageorder.dupkids", "pageorder.numclash", "bookmark.dangling.capture"]
+                   "pageorder.dupkids", "pageorder.numclash", "bookmark.dangling.capture",
+                   "bookmark.target.unreachable", "start0.capture", "panic.exactfit", "max_id.exactfit"]
 
 
 def require_actions(cases, actions):
@@ -106,9 +108,50 @@ def ref_nesting(d):
     return best[0]
 
 
-def classes(before, start, bmc=()):
+def trailer_reach(d):
+    """ids of the objects the trailer reaches"""
+    objs = {(o[0], o[1]): o[2] for o in d["objects"]}
+
+    def refs(x, acc):
+        k = x.get("k")
+        if k == "ref":
+            acc.add((x["n"], x["g"]))
+        elif k == "arr":
+            for v in x["v"]:
+                refs(v, acc)
+        elif k in ("dict", "stream"):
+            for p in x["v" if k == "dict" else "d"]:
+                refs(p[1], acc)
+
+    todo = set()
+    refs({"k": "dict", "v": d["trailer"]}, todo)
+    seen = set()
+    while todo:
+        i = todo.pop()
+        if i in seen:
+            continue
+        seen.add(i)
+        if i in objs:
+            new = set()
+            refs(objs[i], new)
+            todo |= new - seen
+    return seen & set(objs)
+
+
+def classes(before, start, bmc=(), limit=0):
     """input classes of one case (anti-vacuity bookkeeping)"""
     c = set("bm-" + x for x in bmc)
+    if start == 0 and before["objects"]:
+        c.add("start0")
+    if limit and before["objects"] and start + len(before["objects"]) - 1 == limit:
+        c.add("exactfit")
+    if any(o[1] == 65535 for o in before["objects"]):
+        c.add("gen65535")
+    if before["bms"]:
+        reach = trailer_reach(before)
+        liveids = {(o[0], o[1]) for o in before["objects"]}
+        if any(tuple(t) in liveids and tuple(t) not in reach for t in before["bms"]):
+            c.add("bm-unreachable")
     nest = ref_nesting(before)
     for lim in (2, 10, 47, 48):
         if nest >= lim:
@@ -149,6 +192,10 @@ def case_key(rec):
 
 def detail_of(rec, extra=None):
     d = {"start": rec["start"], "entry": rec.get("entry", "renumber_objects_with"), "before": rec["before"]}
+    if rec.get("limit"):
+        d["limit"] = rec["limit"]
+        d["note"] = "numbers told with %d standing for u32::MAX: lopdf was called with start + (u32::MAX - %d)" % (
+            rec["limit"], rec["limit"])
     if "after" in rec:
         d["after"] = rec["after"]
         d["ids_before"] = ids_of(rec["before"])
@@ -164,6 +211,9 @@ def panic_signature(rec):
     b = rec.get("before")
     if b is not None and not b["objects"] and rec["start"] == 0 and "overflow" in rec["panic"]:
         return "C10:panic.empty0"
+    if b is not None and b["objects"] and rec.get("limit") and "overflow" in rec["panic"] \
+            and rec["start"] + len(b["objects"]) - 1 == rec["limit"]:
+        return "C10:panic.exactfit"
     return "C10:panic"
 
 
@@ -194,11 +244,13 @@ def judge(chk, recs, w, name, seen_classes, count_drift=True):
         if "panic" in rec:
             chk.case(None)
             chk.violation(panic_signature(rec), detail_of(rec))
+            if "before" in rec:
+                seen_classes.update(classes(rec["before"], rec["start"], rec.get("bmc", ()), rec.get("limit", 0)))
             out.append(None)
             continue
         v = next(it)
         out.append(v)
-        cl = classes(rec["before"], rec["start"], rec.get("bmc", ()))
+        cl = classes(rec["before"], rec["start"], rec.get("bmc", ()), rec.get("limit", 0))
         nontrivial = len(rec["before"]["objects"]) >= 2
         chk.case(case_key(rec) if nontrivial else None)
         seen_classes.update(cl)          # classes of the *inputs* judged (independent of the verdict)
@@ -251,14 +303,33 @@ def corruptions(rec):
     return out
 
 
+def nochecks_binary():
+    """harness bin c10 built *without* integer overflow checks (what a default release build of lopdf does;
+    the harness profile has them on, as DESIGN 2.7 asks): own target directory, same crate and path dependency"""
+    cdir = vlib._crate_dir("harness")
+    tdir = os.path.join(vlib.WORK, "c10-nochecks-target-" + hashlib.sha1(vlib.REPO.encode()).hexdigest()[:8])
+    env = dict(os.environ, CARGO_NET_OFFLINE="true", CARGO_PROFILE_RELEASE_OVERFLOW_CHECKS="false")
+    t0 = time.time()
+    p = subprocess.run(["cargo", "build", "--release", "--offline", "--bin", "c10", "--target-dir", tdir], cwd=cdir,
+                       env=env, stdout=subprocess.PIPE, stderr=subprocess.STDOUT, text=True)
+    if p.returncode != 0:
+        log(p.stdout[-3000:])
+        raise vlib.ToolError("cargo build (no overflow checks) failed")
+    log("[build] harness c10 without overflow checks %.1fs (repo=%s)" % (time.time() - t0, vlib.REPO))
+    return os.path.join(tdir, "release", "c10")
+
+
 def run(tier):
     chk = Check("C10", META["level"], tier)
     chk.rule = ("documents enumerated by TLC (MC_Renumber) and seeded random reference graphs, each with a start value; a "
                 "case is non-trivial when the document has at least 2 objects; distinct by (document, bookmarks, start)")
     chk.assumptions = [
         "two live objects may share a number (different generations): the statement quantifies over all documents",
-        "page trees are flat or two-level; a page may be listed more than once; bookmark targets are pages reachable "
-        "from the trailer, the conventional (0,0), or ids that name no object (which must still name none afterwards)",
+        "page trees are flat or two-level; a page may be listed more than once; a bookmark target is any object (the "
+        "trailer need not reach it: it is a root of the renaming of its own), the conventional (0,0), or an id that "
+        "names no object (which must still name none afterwards)",
+        "every start value with start + count - 1 <= u32::MAX is inside, 0 and the exact fit included; the exact-fit "
+        "cases are told to TLC with a small number standing for u32::MAX (uniform shift of the new numbers)",
         "generations are not required to be preserved (the statement fixes object numbers only)",
     ]
     w = workdir("c10")
@@ -294,7 +365,10 @@ def run(tier):
     # and the variant without deviations is acceptable on every one of these documents (RepairedRefines).
     seeded_all = {}
     for cfg2, want, acts in (("MC_Renumber_quick_seeded.cfg", FORMER_FINDINGS[:4], MC_ACTIONS),
-                             ("MC_Renumber_quick_seeded2.cfg", FORMER_FINDINGS[4:], MC_ACTIONS_REPAIRED)):
+                             ("MC_Renumber_quick_seeded2.cfg", FORMER_FINDINGS[4:7], MC_ACTIONS_REPAIRED),
+                             ("MC_Renumber_quick_seeded3.cfg", FORMER_FINDINGS[7:10],
+                              [a for a in MC_ACTIONS_REPAIRED if not a.startswith("Page")]),
+                             ("MC_Renumber_quick_seeded4.cfg", FORMER_FINDINGS[10:], None)):
         r2 = tlc("MC_Renumber.tla", cfg2, workers=workers, timeout=3000, env={"C10_PICK": 0}, xmx="4g",
                  name=os.path.splitext(cfg2)[0])
         cases2 = r2.tagged("REPLAY")
@@ -306,10 +380,11 @@ def run(tier):
                 seeded[tag] = seeded.get(tag, 0) + 1
         missing = [t for t in want if not seeded.get(t)]
         extra = sorted(set(seeded) - set(want) - {"ok"})
-        if missing or extra or seeded.get("ok", 0) < len(cases2) // 2:
+        if missing or extra or seeded.get("ok", 0) < len(cases2) // 2:  # noqa
             raise vlib.ToolError("seeded design deviations (%s): not detected %s, unexpected %s (verdicts %s)" % (
                 cfg2, missing, extra, seeded))
-        require_actions(cases2, acts)
+        if acts:
+            require_actions(cases2, acts)
         for k, v in seeded.items():
             seeded_all[k] = seeded_all.get(k, 0) + v
         chk.add_tlc(r2)
@@ -336,7 +411,8 @@ def run(tier):
     chk.extra["model_drift"] = chk.extra.get("model_drift", 0) + drift
     chk.extra["replayed_behaviours"] = len(cases)
     need = {"pages-out-of-id-order", "generation>0", "dangling", "bookmarks", "sparse", "start<=min", "start-inside",
-            "start>max", "nest>=48", "bm-loose", "bm-nested2", "bm-dangling", "dup-kids", "shared-number"}
+            "start>max", "nest>=48", "bm-loose", "bm-nested2", "bm-dangling", "dup-kids", "shared-number", "start0", "exactfit",
+            "bm-unreachable", "gen65535"}
     if not need <= seen:
         raise vlib.ToolError("vacuous replay set: no judged case of class %s" % sorted(need - seen))
     mid = len(cases) // 2
@@ -349,12 +425,16 @@ def run(tier):
     tr = os.path.join(w, "rec.ndjson")
     run_bin("c10", ["record", "--seed", vlib.seed(), "--n", n, "--out", tr])
     recs = read_ndjson(tr)
+    ood = [rec for rec in recs if "ood" in rec]        # outside the statement: observed, not judged
+    recs = [rec for rec in recs if "ood" not in rec]
+    chk.extra["outside_domain_observations"] = {"overflow-by-one (start + count - 1 = u32::MAX + 1)":
+                                                sorted({o["outcome"] for o in ood})}
     fams = {}
     for rec in recs:
         if "fam" in rec:
             fams[rec["fam"]] = fams.get(rec["fam"], 0) + 1
     if len(recs) - sum(fams.values()) != n or fams.get("deep", 0) < 90 or fams.get("bookmarks", 0) < 56 \
-            or fams.get("pageorder", 0) < 48:
+            or fams.get("pageorder", 0) < 48 or fams.get("audit", 0) < 31 or len(ood) < 2:
         raise vlib.ToolError("recorder produced %d records (%d random wanted), families %s" % (len(recs), n, fams))
     chk.extra["recorded_families"] = fams
     seen2 = set()
@@ -373,6 +453,24 @@ def run(tier):
                                  "bookmarks_before": s["before"]["bms"], "start": s["start"], "entry": s["entry"]},
                     "ids_after": ids_of(s["after"]), "pages_after": s["after"]["pages"],
                     "bookmarks_after": s["after"]["bms"], "verdict": "ok"})
+    # (V') thorough: the audit family once more with a build without overflow checks (the exact-fit start value
+    # wraps instead of panicking there)
+    if not quick:
+        exe = nochecks_binary()
+        atr = os.path.join(w, "audit-nochecks.ndjson")
+        p = subprocess.run([exe, "audit", "--out", atr], stdout=subprocess.PIPE, stderr=subprocess.STDOUT, text=True,
+                           timeout=600)
+        if p.returncode != 0:
+            raise vlib.ToolError("c10 audit (no overflow checks) exited %d: %s" % (p.returncode, p.stdout[-500:]))
+        arecs = read_ndjson(atr)
+        aood = [x for x in arecs if "ood" in x]
+        arecs = [x for x in arecs if "ood" not in x]
+        if len(arecs) < 31:
+            raise vlib.ToolError("audit family (no overflow checks) has %d records" % len(arecs))
+        judge(chk, arecs, w, "nochecks", set())
+        chk.extra["outside_domain_observations"]["overflow-by-one, build without overflow checks"] = \
+            sorted({o["outcome"] for o in aood})
+        chk.extra["audit_family_without_overflow_checks"] = len(arecs)
     # (B) negative controls: corrupted copies of accepted records must all be rejected
     negs = []
     for rec, v in zip(recs, vs2):
